@@ -67,3 +67,9 @@ CASES += [
     {"name": "central frequency hoisted behind the branches but kept under internal units", "kind": "twin", "edits": [
         ('quantarhei/core/frequency.py', '                frequency_start = self.data[self.length//2]\n\n            else:\n                raise Exception("Unknown frequency axis type")\n', '\n            else:\n                raise Exception("Unknown frequency axis type")\n\n            frequency_start = self.data[self.length//2]\n', 1), ('quantarhei/core/frequency.py', '                frequency_start = self.data[self.length//2]\n\n\n            elif', '\n\n            elif', 1)]},
 ]
+
+CASES += [
+    {"name": "forward transform reads the frequency step in the caller's units (the repaired defect)", "kind": "mutant", "rule": "C05-U7", "edits": [
+        ("quantarhei/core/dfunction.py", "            with energy_units(\"int\"):\n                Y = w.length*numpy.fft.fftshift(numpy.fft.ifft(\n                    numpy.fft.ifftshift(y)))*w.step/(numpy.pi*2.0)",
+         "            if True:\n                Y = w.length*numpy.fft.fftshift(numpy.fft.ifft(\n                    numpy.fft.ifftshift(y)))*w.step/(numpy.pi*2.0)", 1)]},
+]
